@@ -210,8 +210,8 @@ class Gen:
                 raw.append(self.pick(t))
         if op in ("and", "or") and any(self.sigs[x] == 'K' for x in raw):
             op = "xor"                                   # x & 0 would be folded away by constant propagation
-        if op == "mux" and raw[1] == raw[2]:
-            raw[2] = self.step_pin(t)                     # a mux of two identical values is folded away with its selector
+        if op == "mux" and (raw[1] == raw[2] or (self.sigs[raw[1]] == 'K' and self.sigs[raw[2]] == 'K')):
+            raw[2] = self.step_pin(t)                     # a mux of two identical values (or equal constants) is folded away with its selector
         ops = [self.use(x, t) for x in raw]
         bel = [self.sigs[x] for x in ops]
         if all(b == 'K' for b in bel):
